@@ -9,6 +9,7 @@ package doccomposer
 import (
 	"encoding/json"
 	"fmt"
+	"strings"
 
 	jsonpatch "github.com/evanphx/json-patch"
 
@@ -99,12 +100,55 @@ func applyJSON(doc document.Document, entry interface{}) (document.Document, err
 		return nil, err
 	}
 
-	docBytes, err = jsonPatches.Apply(docBytes)
-	if err != nil {
-		return nil, err
+	// The 'copy' operation of the JSON patch library stores the source node itself at the destination (it does not
+	// copy it). Operations are therefore applied one at a time, each to the serialized result of the previous one,
+	// so that two locations never share a node across operations; within one operation the destination must not
+	// lie inside the source. Otherwise the document could be made to contain itself, and serializing such a
+	// document never terminates (stack overflow).
+	for i := range jsonPatches {
+		err = validateCopyDestination(jsonPatches[i])
+		if err != nil {
+			return nil, err
+		}
+
+		docBytes, err = jsonPatches[i : i+1].Apply(docBytes)
+		if err != nil {
+			return nil, err
+		}
 	}
 
 	return document.FromBytes(docBytes)
+}
+
+// validateCopyDestination returns an error if the operation copies a value to a location inside that value.
+func validateCopyDestination(op map[string]*json.RawMessage) error {
+	if stringMember(op, "op") != "copy" {
+		return nil
+	}
+
+	from := stringMember(op, "from")
+	path := stringMember(op, "path")
+
+	if strings.HasPrefix(path, from+"/") {
+		return fmt.Errorf("JSON patch copy operation: destination '%s' is inside the source '%s'", path, from)
+	}
+
+	return nil
+}
+
+// stringMember returns the string value of the given member of a JSON patch operation ("" if missing or not a string).
+func stringMember(op map[string]*json.RawMessage, member string) string {
+	raw, ok := op[member]
+	if !ok || raw == nil {
+		return ""
+	}
+
+	var value string
+	if err := json.Unmarshal(*raw, &value); err != nil {
+		return ""
+	}
+
+	return value
 }
 
 func applyRecover(replaceDoc interface{}) (document.Document, error) {
